@@ -499,11 +499,22 @@ def check_python_version(program: str) -> None:
         )
 
 
+def message_severity(message: str) -> str | None:
+    """Is a formatted message an error or a note? (The message text may quote either marker.)"""
+    error_pos = message.find(": error:")
+    note_pos = message.find(": note:")
+    if error_pos < 0 and note_pos < 0:
+        return None
+    if note_pos < 0 or 0 <= error_pos < note_pos:
+        return "error"
+    return "note"
+
+
 def count_stats(messages: list[str]) -> tuple[int, int, int]:
     """Count total number of errors, notes and error_files in message list."""
-    errors = [e for e in messages if ": error:" in e]
+    errors = [e for e in messages if message_severity(e) == "error"]
     error_files = {e.split(":")[0] for e in errors}
-    notes = [e for e in messages if ": note:" in e]
+    notes = [e for e in messages if message_severity(e) == "note"]
     return len(errors), len(notes), len(error_files)
 
 
